@@ -5,12 +5,16 @@
 package main
 
 import (
+	"bytes"
 	"crypto/tls"
 	"crypto/x509"
+	"encoding/binary"
 	"encoding/json"
 	"errors"
 	"fmt"
 	"net"
+	"os"
+	"os/exec"
 	"strings"
 	"sync"
 	"time"
@@ -21,7 +25,7 @@ import (
 )
 
 type identSpec struct {
-	Kind string `json:"kind"` // match (declares the key named by the certificate's CN) | other | wrongtype
+	Kind string `json:"kind"` // match (declares the key named by the certificate's CN) | other | wrongtype | badkey | nokey
 	Key  int    `json:"key"`
 }
 
@@ -36,7 +40,10 @@ type input struct {
 	TLSVer   string    `json:"tlsver"` // 1.2 | 1.3
 	Ident    identSpec `json:"ident"`
 	Msgs     int       `json:"msgs"`
-	Class    string    `json:"class"`
+	// Reident = k+1 > 0: after the first application message the peer sends a
+	// (second) identity message naming key k, then goes on; 0 = it does not
+	Reident int    `json:"reident"`
+	Class   string `json:"class"`
 }
 
 // C08Msg is the application message the peers exchange.
@@ -55,6 +62,8 @@ type obs struct {
 	Attempts   int    `json:"dial_attempts,omitempty"`
 	NonceReuse bool   `json:"same_nonce_on_every_attempt,omitempty"`
 	Discard    string `json:"discard,omitempty"`
+	// the honest holder's relayed proof covered its certificate key (binding repair present)
+	OracleBound bool `json:"relayed_proof_bound_to_tls_key,omitempty"`
 }
 
 func coqSuite(s string) string {
@@ -75,13 +84,17 @@ func coqCase(in *input, o *obs) string {
 	}
 	ident := "IdWrongType"
 	switch in.Ident.Kind {
+	case "nokey":
+		ident = "IdNoKey"
+	case "badkey":
+		ident = "IdBadKey"
 	case "match":
 		ident = "IdMatch"
 	case "other":
 		ident = fmt.Sprintf("(IdKey %d)", in.Ident.Key)
 	}
 	return fmt.Sprintf("Case %s %s %s %s (Hello %s %d) %s %d (Obs %s %d %s %s)", lvl, role, coqSuite(in.Suite),
-		lib.NatList(in.Holds), coqChain(in.Chain), in.HSKey, ident, in.Msgs,
+		lib.NatList(in.Holds), coqChain(in.Chain, o.OracleBound), in.HSKey, ident, in.Msgs,
 		lib.Bool(o.Handshake), o.Dispatched, lib.NatList(o.Stamped), lib.Bool(o.Crash != ""))
 }
 
@@ -114,13 +127,10 @@ func run(raw json.RawMessage) lib.Case {
 		panic(err)
 	}
 	var o obs
-	switch in.Level {
-	case "unit":
-		o = runUnit(&in)
-	case "tls":
-		o = runTLS(&in)
-	default:
-		panic("bad level")
+	if needsSubprocess(&in) {
+		o = runInSubprocess(raw)
+	} else {
+		o = runHere(&in)
 	}
 	class := in.Class
 	if tags := defectTags(&in); tags != "" {
@@ -136,8 +146,10 @@ func run(raw json.RawMessage) lib.Case {
 // defectTags marks, from the INPUT alone, the two input patterns behind the
 // recorded defects of the pinned tree, so that a known finding is matched by
 // the pattern of the input and not by the name of the generator that produced it:
-//   +uri-cn-split   dial role, some URI names the dialled key, the CN does not decode to it   (F09)
-//   +relayed-proof  the presented signature is an honest holder's own proof for the current nonce
+//
+//	+uri-cn-split   dial role, some URI names the dialled key, the CN does not decode to it   (F09)
+//	+relayed-proof  the presented signature is an honest holder's own proof for the current nonce
+//	+identity-without-key  accept role over TLS, identity message without the public-key field   (F29)
 func defectTags(in *input) string {
 	if len(in.Chain) == 0 || in.Chain[0].Cert == nil {
 		return ""
@@ -162,7 +174,74 @@ func defectTags(in *input) string {
 	if c.Sig.Kind == "sig" && c.Sig.How == "oracle" && c.Sig.Nonce == "cur" {
 		tags += "+relayed-proof"
 	}
+	if in.Level == "tls" && in.Role == "accept" && in.Ident.Kind == "nokey" {
+		tags += "+identity-without-key"
+	}
 	return tags
+}
+
+func runHere(in *input) obs {
+	switch in.Level {
+	case "unit":
+		return runUnit(in)
+	case "tls":
+		return runTLS(in)
+	}
+	panic("bad level")
+}
+
+// A panic in a goroutine of the honest router kills the whole process, so
+// inputs that can reach one (a malformed identity message after an accepted
+// handshake) are run in a child process: this binary re-executed with -one.
+func needsSubprocess(in *input) bool {
+	return in.Level == "tls" && in.Role == "accept" && (in.Ident.Kind == "nokey" || in.Ident.Kind == "badkey")
+}
+
+func runInSubprocess(raw json.RawMessage) obs {
+	cmd := exec.Command(os.Args[0], "-one")
+	cmd.Stdin = bytes.NewReader(raw)
+	var stdout, stderr bytes.Buffer
+	cmd.Stdout, cmd.Stderr = &stdout, &stderr
+	done := make(chan error, 1)
+	if err := cmd.Start(); err != nil {
+		return obs{Discard: "cannot start child: " + err.Error()}
+	}
+	go func() { done <- cmd.Wait() }()
+	select {
+	case err := <-done:
+		if err == nil {
+			var o obs
+			if json.Unmarshal(stdout.Bytes(), &o) != nil {
+				return obs{Discard: "child output unreadable"}
+			}
+			return o
+		}
+		// the child died: a Go panic prints "panic: ..." and a stack trace
+		e := stderr.String()
+		i := strings.Index(e, "panic: ")
+		if i < 0 {
+			return obs{Discard: "child failed without a panic: " + clip(e)}
+		}
+		line := e[i:]
+		if j := strings.Index(line, "\n"); j >= 0 {
+			line = line[:j]
+		}
+		// the handshake had been accepted iff the panic comes from the code after it
+		return obs{Crash: clip(line), Handshake: strings.Contains(e, "receiveServerIdentity")}
+	case <-time.After(30 * time.Second):
+		cmd.Process.Kill()
+		return obs{Discard: "child timed out"}
+	}
+}
+
+// childMain is the -one mode: one input on stdin, its observation on stdout.
+func childMain() {
+	var in input
+	if err := json.NewDecoder(os.Stdin).Decode(&in); err != nil {
+		panic(err)
+	}
+	o := runHere(&in)
+	json.NewEncoder(os.Stdout).Encode(o)
 }
 
 func extractSig(der []byte) ([]byte, error) {
@@ -206,12 +285,13 @@ func runUnit(in *input) (o obs) {
 		if err != nil {
 			return nil, err
 		}
-		return extractSig(c.Certificate[0])
+		return c.Certificate[0], nil
 	}
 	chain, err := w.buildChain(in.Chain)
 	if err != nil {
 		return obs{Discard: "cannot build chain: " + err.Error()}
 	}
+	o.OracleBound = w.oracleBound
 	func() {
 		defer func() {
 			if r := recover(); r != nil {
@@ -289,9 +369,8 @@ func (h *honest) waitDispatched(n int, stop <-chan bool, max time.Duration) {
 		select {
 		case <-h.ch:
 		case <-stop:
-			// the honest side closed the link: whatever was dispatched before is final
-			// after its handler goroutine has run; give it a moment
-			time.Sleep(20 * time.Millisecond)
+			// the honest side closed the link. Dispatching is synchronous in the
+			// router's read loop and precedes its Close, so the count is final.
 			return
 		case <-deadline:
 			return
@@ -365,10 +444,14 @@ func runTLS(in *input) (o obs) {
 	w.nonces["foreign"] = network.VerifC08MkNonce(w.suite)
 	if in.Role == "accept" {
 		w.oracle = func(signer int, n []byte) ([]byte, error) { return w.relayFromDialler(e, signer, n) }
-		return runAccept(in, w, h)
+		o = runAccept(in, w, h)
+		o.OracleBound = w.oracleBound
+		return o
 	}
 	w.oracle = func(signer int, n []byte) ([]byte, error) { return w.relayFromListener(e, signer, n) }
-	return runDial(in, w, h)
+	o = runDial(in, w, h)
+	o.OracleBound = w.oracleBound
+	return o
 }
 
 // relayFromListener: the deviating peer connects to the honest holder's TLS
@@ -385,7 +468,7 @@ func (w *world) relayFromListener(e *honest, signer int, nonce []byte) ([]byte, 
 		ServerName:         string(nonce),
 		VerifyPeerCertificate: func(raw [][]byte, _ [][]*x509.Certificate) error {
 			if len(raw) > 0 {
-				sig, serr = extractSig(raw[0])
+				sig = raw[0] // the holder's certificate; the proof is cut out of it by the caller
 			}
 			return errors.New("got what I wanted")
 		},
@@ -429,8 +512,7 @@ func (w *world) relayFromDialler(e *honest, signer int, nonce []byte) ([]byte, e
 			ClientAuth:   tls.RequireAnyClientCert,
 			ClientCAs:    pool,
 			VerifyPeerCertificate: func(raw [][]byte, _ [][]*x509.Certificate) error {
-				s, err := extractSig(raw[0])
-				out <- res{s, err}
+				out <- res{raw[0], nil}
 				return nil
 			},
 		}, nil
@@ -457,7 +539,7 @@ func (w *world) relayFromDialler(e *honest, signer int, nonce []byte) ([]byte, e
 	select {
 	case r := <-out:
 		return r.sig, r.err
-	case <-time.After(3 * time.Second):
+	case <-time.After(10 * time.Second):
 		return nil, errors.New("honest holder did not dial")
 	}
 }
@@ -543,6 +625,9 @@ func runAccept(in *input, w *world, h *honest) (o obs) {
 		for {
 			c.SetReadDeadline(time.Now().Add(5 * time.Second))
 			if _, err := c.Read(buf); err != nil {
+				if ne, ok := err.(net.Error); ok && ne.Timeout() {
+					continue // nothing to read yet: the link is simply up
+				}
 				rerr = err
 				close(closed)
 				return
@@ -562,17 +647,43 @@ func runAccept(in *input, w *world, h *honest) (o obs) {
 			tc.Send(w.si(in.Ident.Key, network.NewTLSAddress("127.0.0.1:1"), false))
 		case "wrongtype":
 			tc.Send(&C08Msg{Tag: 1000})
+		case "nokey", "badkey":
+			// an identity message whose public-key field is missing / is not a point
+			k, ok := leafCNKey(in)
+			if !ok {
+				k = kA
+			}
+			b, err := network.Marshal(w.si(k, network.NewTLSAddress("127.0.0.1:1"), false))
+			if err != nil || len(b) < 18 || b[16] != 0x0a {
+				return
+			}
+			l, n := binary.Uvarint(b[17:])
+			rest := b[17+n+int(l):]
+			msg := append([]byte{}, b[:16]...)
+			if in.Ident.Kind == "badkey" {
+				msg = append(msg, b[16:17+n]...)
+				for i := 0; i < int(l); i++ {
+					msg = append(msg, 0xff)
+				}
+			}
+			msg = append(msg, rest...)
+			var sz [4]byte
+			binary.BigEndian.PutUint32(sz[:], uint32(len(msg)))
+			c.Write(append(sz[:], msg...))
 		}
 	}
 	sendIdent()
 	for i := 0; i < in.Msgs; i++ {
 		tc.Send(&C08Msg{Tag: i})
+		if i == 0 && in.Reident > 0 {
+			tc.Send(w.si(in.Reident-1, network.NewTLSAddress("127.0.0.1:1"), false))
+		}
 	}
 	want := in.Msgs
 	if in.Ident.Kind == "wrongtype" {
 		want++
 	}
-	h.waitDispatched(want, closed, 3*time.Second)
+	h.waitDispatched(want, closed, 15*time.Second)
 	select {
 	case <-closed:
 		if rerr != nil && strings.Contains(rerr.Error(), "remote error: tls:") {
@@ -634,11 +745,12 @@ func runDial(in *input, w *world, h *honest) (o obs) {
 				return
 			}
 			go func(tc *tls.Conn) {
-				tc.SetDeadline(time.Now().Add(5 * time.Second))
+				tc.SetDeadline(time.Now().Add(10 * time.Second))
 				if err := tc.Handshake(); err != nil {
 					tc.Close()
 					return
 				}
+				tc.SetDeadline(time.Now().Add(30 * time.Second))
 				linkUp <- tc
 			}(c.(*tls.Conn))
 		}
@@ -681,7 +793,7 @@ func runDial(in *input, w *world, h *honest) (o obs) {
 	var tc *tls.Conn
 	select {
 	case tc = <-linkUp:
-	case <-time.After(3 * time.Second):
+	case <-time.After(10 * time.Second):
 		return obs{Discard: "dialler reports success but the server saw no handshake"}
 	}
 	defer tc.Close()
@@ -691,8 +803,11 @@ func runDial(in *input, w *world, h *honest) (o obs) {
 	oc.Receive()
 	for i := 0; i < in.Msgs; i++ {
 		oc.Send(&C08Msg{Tag: i})
+		if i == 0 && in.Reident > 0 {
+			oc.Send(w.si(in.Reident-1, network.NewTLSAddress("127.0.0.1:1"), false))
+		}
 	}
-	h.waitDispatched(in.Msgs, make(chan bool), 3*time.Second)
+	h.waitDispatched(in.Msgs, make(chan bool), 15*time.Second)
 	o.Dispatched = h.count()
 	o.Stamped = w.stamped(h)
 	return o
